@@ -980,6 +980,17 @@ class Scenario:
                         if lab:
                             self.require(s_eq(others, 0), lab, 'make-mut-steals-shared-value',
                                          'Rc::make_mut moved the value out of object %d although other strong handles to it exist' % old, subject=[old])
+                    else:
+                        # sole strong handle: the value may only be moved to a fresh allocation when Weak handles exist; a unique,
+                        # Weak-free object is mutated in place (same allocation, same identity, same adoption records)
+                        lab = [q for q in ('C06', 'C12', 'C03', 'C08', 'C01', 'C07') if q in self.oracles]
+                        if lab:
+                            wk = self.weak_holders(old)
+                            self.objs[old].unwrapped = True
+                            self.obs(op, 'moved')
+                            self.require(s_not(s_eq(wk, 0)), lab[0], 'make-mut-moves-unique-value',
+                                         'Rc::make_mut moved the value of object %d to a new allocation although the handle was unique and no Weak handle exists' % old, subject=[old])
+                            return
                     self.objs[old].unwrapped = True
                 self.obs(op, 'moved' if v.id == self.objs[old].pid else 'cloned')
             else:
